@@ -37,7 +37,7 @@ for f in sorted(glob.glob(f"{V}/benign/*.diff")):
         subprocess.run(["git","-C","/repo","checkout","--","."],check=True)
 prev = []
 try:
-    prev = [r for r in json.load(open(f"{V}/benign/last_results.json")) if r[0] not in {x[0] for x in rows}]
+    prev = [r for r in json.load(open(f"{V}/benign/last_results.json")) if (r[0], r[1]) not in {(x[0], x[1]) for x in rows}]
 except Exception:
     pass
 json.dump(prev + [list(r) for r in rows], open(f"{V}/benign/last_results.json","w"), indent=1)
